@@ -18,3 +18,4 @@ pub mod c16;
 pub mod box_eng;
 pub mod c18;
 pub mod c05;
+pub mod c12;
